@@ -89,4 +89,15 @@ CHECKS = {
         "required_classes": {"verdict:compiled": 0.0005, "verdict:rejected": 0.0005, "exhaustive:compiled": 0.00001},
         "assumptions": COMMON_ASSUMPTIONS + ["strings longer than L are only sampled (keyword OPTIONS, long names, annotations with blanks come from the rapid sources)"],
     },
+    "C03": {
+        "tests": [{"name": "TestC03", "quick": 40000, "thorough": 1200000, "deadline": "10s"}],
+        "rule": "cases = (spec string, declarations, argv, environment subsets); spec sources: grammar-derived with nesting turned up (depth 5: repetitions of optionals of repetitions, -- and option "
+                "groups inside repetitions), the same with byte/fragment edits, edited strings of the repository corpus, alphabet-biased and raw byte strings; argv from the C01 sources, "
+                "hostile token soup, and pumped to 20-200 tokens; EVERY subset of the options env-backed when <= 4 options (else 8 random subsets) - evaluations count (case, subset) runs; "
+                "each run executes in-process under a 64 MB stack cap, a journal and a 10 s per-call watchdog: a dead or silent worker is re-run twice from the journal in fresh processes; "
+                "oracle: exactly one of {spec error = panic(*lexer.ParseError) with 0 <= Pos <= len(spec) and a printable message, accepted, usage error, help}; "
+                "non-trivial = spec with a repetition whose body can match without consuming (optional, --, env-backed option) or containing non-UTF-8/control bytes; distinct by (spec, argv, subset)",
+        "required_classes": {"outcome:accepted": 0.1, "outcome:spec-error": 0.05, "outcome:usage-error": 0.1, "spec:nested-repetition-of-nullable-or-env": 0.005, "env:some-option-backed": 0.3},
+        "assumptions": COMMON_ASSUMPTIONS + ["'never hangs' is decided by a 10 s per-call deadline (normal cost is microseconds) confirmed twice in a fresh process with a 60 s deadline"],
+    },
 }
